@@ -152,6 +152,9 @@ pub fn run(ctx: &mut crate::Ctx) {
             { let mut i = Query::insert(); i.into_table(id(&a.t)).columns([id(&a.a)]).values_panic([a.e1.clone()]).returning_col(id(&a.b)); i });
         pair!("insert.on_conflict twice", { let mut i = Query::insert(); i.into_table(id(&a.t)).columns([id(&a.a)]).values_panic([a.e1.clone()]).on_conflict(OnConflict::column(id(&a.a)).do_nothing().to_owned()).on_conflict(OnConflict::column(id(&a.b)).update_column(id(&a.a)).to_owned()); i },
             { let mut i = Query::insert(); i.into_table(id(&a.t)).columns([id(&a.a)]).values_panic([a.e1.clone()]).on_conflict(OnConflict::column(id(&a.b)).update_column(id(&a.a)).to_owned()); i });
+        pair!("insert.or_default_values twice", { let mut i = Query::insert(); i.into_table(id(&a.t)).or_default_values().or_default_values(); i }, { let mut i = Query::insert(); i.into_table(id(&a.t)).or_default_values(); i });
+        pair!("insert.or_default_values_many twice", { let mut i = Query::insert(); i.into_table(id(&a.t)).or_default_values_many(3).or_default_values_many((a.n % 5) as u32); i }, { let mut i = Query::insert(); i.into_table(id(&a.t)).or_default_values_many((a.n % 5) as u32); i });
+        pair!("insert.or_default_values after many", { let mut i = Query::insert(); i.into_table(id(&a.t)).or_default_values_many(4).or_default_values(); i }, { let mut i = Query::insert(); i.into_table(id(&a.t)).or_default_values(); i });
         pair!("update.limit twice", { let mut u = Query::update(); u.table(id(&a.t)).value(id(&a.a), a.v1.clone()).limit(a.n + 1).limit(a.n); u }, { let mut u = Query::update(); u.table(id(&a.t)).value(id(&a.a), a.v1.clone()).limit(a.n); u });
         // ---- accumulating calls: every call adds, in call order
         pair!("select.from twice", { let mut s = Query::select(); s.column(id(&a.a)).from(id(&a.t)).from(id(&a.u)); s }, { let mut s = Query::select(); s.column(id(&a.a)); s.from(id(&a.t)); s.from(id(&a.u)); s });
